@@ -481,6 +481,11 @@ pub enum GOp {
     Build,
 }
 
+/// one live batteries-included builder; `step` returns an outcome for Build and for a failing claim constructor
+pub trait BSession {
+    fn step(&mut self, op: &BOp) -> Option<Out<String>>;
+}
+
 /// operations on the batteries-included builder (C13, C17)
 #[derive(Clone, Debug, Serialize, Deserialize, PartialEq)]
 pub enum BOp {
@@ -565,9 +570,13 @@ pub enum PStep {
     SleepMs(u64),
     /// register (or replace) an expected claim on the live parser
     Check(Claim),
+    /// register a harness validator on the live parser (validate_claim, or extend_validation_claims on GenericParser)
+    Validate(VSpec),
 }
 
 thread_local! {
+    /// validator call log of each Parse step of the last session() on this thread
+    static SESSION_LOGS: RefCell<Vec<Vec<(String, Value)>>> = const { RefCell::new(Vec::new()) };
     /// call log of harness validators: (key, value seen)
     pub static VLOG: RefCell<Vec<(String, Value)>> = const { RefCell::new(Vec::new()) };
     static VTABLE: RefCell<Vec<(String, VBehave)>> = const { RefCell::new(Vec::new()) };
@@ -593,6 +602,16 @@ static HV: fn(&str, &Value) -> Result<(), PasetoClaimError> = harness_validator;
 
 pub fn vlog_take() -> Vec<(String, Value)> {
     VLOG.with(|l| std::mem::take(&mut *l.borrow_mut()))
+}
+pub fn session_logs_take() -> Vec<Vec<(String, Value)>> {
+    SESSION_LOGS.with(|l| std::mem::take(&mut *l.borrow_mut()))
+}
+fn vtable_add(v: &VSpec) {
+    VTABLE.with(|t| {
+        let mut t = t.borrow_mut();
+        t.retain(|(k, _)| k != v.claim.key());
+        t.push((v.claim.key().to_string(), v.behave.clone()));
+    });
 }
 fn vtable_set(v: &[VSpec]) {
     VTABLE.with(|t| *t.borrow_mut() = v.iter().map(|s| (s.claim.key().to_string(), s.behave.clone())).collect());
@@ -813,6 +832,8 @@ pub trait Proto {
     fn generic_open_seq(key: &KeyMat, tokens: &[&str], cfg: &ParserCfg) -> Vec<(Out<Value>, Vec<(String, Value)>)>;
     fn generic_run(key: &KeyMat, ops: &[GOp]) -> Vec<Out<String>>;
     fn batteries_run(key: &KeyMat, ops: &[BOp]) -> Vec<Out<String>>;
+    /// a live batteries-included builder that is driven one operation at a time (so that several can be interleaved)
+    fn batteries_session(key: &KeyMat) -> Box<dyn BSession>;
     /// one parser object (generic or batteries layer) driven through `steps`; returns one outcome per Parse step
     fn session(batteries: bool, keys: &[KeyMat], cfg: &ParserCfg, steps: &[PStep]) -> Vec<Out<Value>>;
     fn batteries_open(key: &KeyMat, token: &str, cfg: &ParserCfg) -> (Out<Value>, Vec<&'static str>);
@@ -1141,9 +1162,54 @@ macro_rules! impl_proto {
                 }
                 outs
             }
+            fn batteries_session(key: &KeyMat) -> Box<dyn BSession> {
+                struct S {
+                    b: PasetoBuilder<'static, $V, $Pu>,
+                    key: KeyMat,
+                }
+                impl BSession for S {
+                    fn step(&mut self, op: &BOp) -> Option<Out<String>> {
+                        // the builder keeps references into what it is given: the session owns a leaked copy
+                        let op: &'static BOp = Box::leak(Box::new(op.clone()));
+                        let b = &mut self.b;
+                        let key = &self.key;
+                        match op {
+                            BOp::Set(c) => {
+                                let (o, _) = guard(|| -> Result<(), PasetoClaimError> { set_claim_on!(b, c) }, claim_err);
+                                match o {
+                                    Out::Ok(()) => None,
+                                    Out::Err(e) => Some(Out::Err(format!("ClaimCtor/{}", e))),
+                                    Out::Panic(p) => Some(Out::Panic(p)),
+                                }
+                            }
+                            BOp::Ack => {
+                                b.set_no_expiration_danger_acknowledged();
+                                None
+                            }
+                            BOp::Footer(f) => {
+                                b.set_footer(Footer::from(f.as_str()));
+                                None
+                            }
+                            BOp::Assertion(a) => {
+                                ia_builder!($assert, b, Some(a.as_str()));
+                                None
+                            }
+                            BOp::Build => {
+                                let (o, _) = guard(
+                                    || -> Result<String, HErr<GenericBuilderError>> { seal_keys!($kind, $V, key, |k| b.build(&k).map_err(HErr::Lib)) },
+                                    fmt_h(builder_err),
+                                );
+                                Some(o)
+                            }
+                        }
+                    }
+                }
+                Box::new(S { b: PasetoBuilder::<$V, $Pu>::default(), key: key.clone() })
+            }
             #[allow(unused_variables)]
             fn session(batteries: bool, keys: &[KeyMat], cfg: &ParserCfg, steps: &[PStep]) -> Vec<Out<Value>> {
                 vtable_set(&cfg.validators);
+                let _ = session_logs_take();
                 let r = (|| -> Result<Vec<Out<Value>>, HErr<GenericParserError>> {
                     keys_vec!($kind, $V, keys, |ks| {
                         let mut res = Vec::new();
@@ -1165,9 +1231,16 @@ macro_rules! impl_proto {
                                         let one: &'static ParserCfg = Box::leak(Box::new(one));
                                         Self::configure_batteries(&mut p, one).map_err(HErr::ClaimCtor)?;
                                     }
+                                    PStep::Validate(v) => {
+                                        vtable_add(v);
+                                        let one: &'static ParserCfg = Box::leak(Box::new(ParserCfg { validators: vec![v.clone()], ..Default::default() }));
+                                        Self::configure_batteries(&mut p, one).map_err(HErr::ClaimCtor)?;
+                                    }
                                     PStep::Parse { token, key } => {
                                         let k = &ks[*key % ks.len()];
+                                        let _ = vlog_take();
                                         let (o, _) = guard(|| -> Result<Value, HErr<GenericParserError>> { p.parse(token, k).map_err(HErr::Lib) }, fmt_h(parser_err));
+                                        SESSION_LOGS.with(|l| l.borrow_mut().push(vlog_take()));
                                         res.push(o);
                                     }
                                 }
@@ -1187,9 +1260,16 @@ macro_rules! impl_proto {
                                     PStep::Check(c) => {
                                         check_claim_on!(p, c, check_claim).map_err(HErr::ClaimCtor)?;
                                     }
+                                    PStep::Validate(v) => {
+                                        vtable_add(v);
+                                        let one: &'static ParserCfg = Box::leak(Box::new(ParserCfg { validators: vec![v.clone()], ..Default::default() }));
+                                        Self::configure_generic(&mut p, one).map_err(HErr::ClaimCtor)?;
+                                    }
                                     PStep::Parse { token, key } => {
                                         let k = &ks[*key % ks.len()];
+                                        let _ = vlog_take();
                                         let (o, _) = guard(|| -> Result<Value, HErr<GenericParserError>> { p.parse(token, k).map_err(HErr::Lib) }, fmt_h(parser_err));
+                                        SESSION_LOGS.with(|l| l.borrow_mut().push(vlog_take()));
                                         res.push(o);
                                     }
                                 }
@@ -1426,6 +1506,9 @@ pub fn generic_open_seq(p: P, key: &KeyMat, tokens: &[&str], cfg: &ParserCfg) ->
 }
 pub fn batteries_run(p: P, key: &KeyMat, ops: &[BOp]) -> Vec<Out<String>> {
     dispatch!(p, T => T::batteries_run(key, ops))
+}
+pub fn batteries_session(p: P, key: &KeyMat) -> Box<dyn BSession> {
+    dispatch!(p, T => T::batteries_session(key))
 }
 pub fn batteries_open(p: P, key: &KeyMat, token: &str, cfg: &ParserCfg) -> (Out<Value>, Vec<&'static str>) {
     dispatch!(p, T => T::batteries_open(key, token, cfg))
